@@ -139,6 +139,13 @@ func Gen(r *sx.Rng, idx int, focus string) sx.Tree {
 				}
 			}
 		}
+		if focus == "C02" && len(stall) == 0 && r.Chance(60) {
+			// slow error handlers and many failures: handler buffers fill, reports must still all arrive (or be
+			// discarded and counted when the HANDLER is marked discard_on_full_buffer)
+			phases[1] = sx.Ints(r.Range(60, 200), 1)
+			phases = phases[:2]
+			return sx.T(sx.L(0), sx.L(2), sx.T(cfgs...), sx.T(phases...), sx.T(), sx.T(handlerIDs(cfgs)...), sx.Ints(45))
+		}
 		return sx.T(sx.L(0), sx.L(2), sx.T(cfgs...), sx.T(phases...), sx.T(stall...))
 	}
 	// lockstep scenario
@@ -212,6 +219,27 @@ func discardingIDs(cfgs []sx.Tree) []int64 {
 		}
 		if t.At(5).Bool() {
 			out = append(out, t.At(0).Int())
+		}
+		for _, k := range t.At(6).Kids {
+			walk(k)
+		}
+	}
+	for _, c := range cfgs {
+		walk(c)
+	}
+	return out
+}
+
+// handlerIDs lists the ids of the error handlers of enabled nodes.
+func handlerIDs(cfgs []sx.Tree) []sx.Tree {
+	var out []sx.Tree
+	var walk func(t sx.Tree)
+	walk = func(t sx.Tree) {
+		if t.At(4).Bool() {
+			return
+		}
+		if t.At(7).Len() == 1 {
+			out = append(out, sx.L(t.At(7).At(0).At(0).Int()))
 		}
 		for _, k := range t.At(6).Kids {
 			walk(k)
